@@ -538,6 +538,32 @@ func wrappedValueSet(c *an.Ctx) map[string]ssa.Instruction {
 func ruleOrders(rule string) RuleFn {
 	return func(c *an.Ctx) {
 		c.Rule(rule, "orders invariant (E-SIB X-wrapped): every place that makes a scope hold a graph node records that scope's index in the node's own orders map, for every node type in the value set of graphNode.Wrapped: (a) newGraphNode stores orders[s] = s.gh.NewNode(wrapped) and recurses over childScopes with the same arguments; (b) each creator passes the node together with that node's own orders map; (c) the copy loop of Scope.Scope copies every parent node and, for every type in the value set, copies orders[parent] to orders[child]. A missing entry reads as index 0 and fabricates an edge")
+		// (d) every call of NewNode gives the wrapped object a node of its OWN: the append to gh.nodes lies on every
+		// path to a return, and what is returned is the length before that append. A node shared between two
+		// wrapped objects (the consumers of one value group, say) leaves the second object without an entry in the
+		// scopes created later - Scope.Scope copies orders for the object each node wraps
+		if nn := c.Fn(rule, "(*dig.graphHolder).NewNode"); nn != nil {
+			var apps []ssa.Instruction
+			for _, st := range an.StoresToField(nn, "graphHolder", "nodes") {
+				apps = append(apps, st)
+			}
+			okNew := len(apps) == 1
+			why := "NewNode does not append exactly one node"
+			if okNew {
+				isRet := func(i ssa.Instruction) bool { _, ok := i.(*ssa.Return); return ok }
+				if hit, _ := an.PathTo(nn, nil, isRet, an.NewGates().AddInstr(apps...)); hit != nil {
+					okNew, why = false, "NewNode can return without having appended a node: the wrapped object shares the node of another one (or has none), and a scope created later holds no index for it - index 0 is read there and an edge is fabricated or lost"
+				}
+				an.Instrs(nn, func(in ssa.Instruction) {
+					if r, ok := in.(*ssa.Return); ok && okNew {
+						if v := an.Norm(r.Results[0]); v != "len(p:gh.nodes)" {
+							okNew, why = false, "NewNode returns "+v+", not the index of the node it appended"
+						}
+					}
+				})
+			}
+			c.Check(okNew, rule, "(d) NewNode gives every wrapped object a node of its own", "append on every path; returns the length before it", why, nil, nil)
+		}
 		vs := wrappedValueSet(c)
 		var types_ []string
 		for t := range vs {
